@@ -196,7 +196,7 @@ E.register(C08())
 
 # ---------------------------------------------------------------------------------------
 FULL_MIX = {"let": 10, "assert": 3, "guarded": 2.5, "ite_call": 1.0, "set_ie": 0.3, "val": 1,
-            "array": 0.8, "aset": 0.8, "aget": 1.0}
+            "array": 0.8, "aset": 0.8, "aget": 1.0, "hash": 0.12}
 
 
 class C01(TraceCheck):
@@ -2958,7 +2958,10 @@ class C13(TraceCheck):
         return {"violations": viol, "digest": E.sha((name, [sorted((str(k), c) for k, c in m.items()) for m in model],
                                                      [v["detail"] for v in viol])),
                 "nontrivial": E.sha((name, case["ops"])) if nops >= 3 else None, "events": nops + len(case["inv"]),
-                "faults": {}, "probes": {"backend_" + name: 1, "self_operand": sum(1 for o in case["ops"] if o[1] == o[2])},
+                "faults": {"operation_on_shared_object": nops,
+                           "operand_aliased_with_itself": sum(1 for o in case["ops"] if o[1] % max(1, len(pool)) == o[2] % max(1, len(pool))),
+                           "scalar_outside_0_p": sum(1 for o in case["ops"] if o[0] == "mul" and not (0 <= o[3] < p))},
+                "probes": {"backend_" + name: 1},
                 "sigs": [E.sha((name, o[0])) for o in case["ops"]], "outcome": "completed"}
 
     def shrink_candidates(self, case):
